@@ -15,7 +15,12 @@ package main
 //     library that is used as a value somewhere and has an identical signature.
 //  3. In every reachable function (closures included) each write is examined: assignments (`=`, `op=`),
 //     `x++`, `delete(m, k)`, `copy(dst, …)`, in-place sorts (`sort.X(s)`, `slices.SortX(s)`) and the
-//     mutating methods of a `sync.Map`. The written location is walked down to its root identifier;
+//     mutating methods of a `sync.Map`, and `append(s, …)` / `slices.Insert|Delete|Compact…(s, …)` — an append
+//     to a slice that has SPARE CAPACITY stores the new elements in the backing array the slice shares with
+//     whoever else holds it (a document slice decoded by encoding/json with 3, 5-7, 9-15 … elements has
+//     cap > len): the elements of `s` count as (potentially) written. Exempt: `append(s[:n:n], …)` /
+//     `append(slices.Clip(s), …)` (cap == len: append must reallocate), class `appendClipped`.
+//     The written location is walked down to its root identifier;
 //     the walk records whether a pointer / map / slice is crossed (a write that never crosses one
 //     stays in the variable itself).
 //       - root is a package-level variable                         → row, root `global`
@@ -39,6 +44,9 @@ package main
 //                   for a package-level X whose declaration has / has not an initialiser
 //       nilGuardCtor / nilGuardField – `v := R.f; if v == nil { …; R.f = e }` (lazily created field) where a
 //                   constructor `New…` of the package does / does not call the enclosing method
+//       appendSpare – `append(s, …)` (or an in-place `slices` edit) on a slice reachable from shared state, not
+//                   under a mutex / once: a plain write whenever cap(s) > len(s)
+//       appendClipped – the same on `s[:n:n]` / `slices.Clip(s)`: no write
 //       none      – anything else
 //  5. Shapes the walk cannot read (a write through a type assertion, an index of a call result, a
 //     function value with no candidate callee …) become `unrecognised "<file:line>"` rows.
@@ -393,7 +401,7 @@ func (x *swx) freshExpr(p *packages.Package, e ast.Expr, lf map[types.Object]boo
 			}
 		}
 		if f := calleeOf(p, e); f != nil {
-			if x.fresh[f] {
+			if x.fresh[f] || stdFresh(f) {
 				return true
 			}
 			// result is not a reference → nothing shared can be reached through it
@@ -407,6 +415,19 @@ func (x *swx) freshExpr(p *packages.Package, e ast.Expr, lf map[types.Object]boo
 			return true
 		}
 		return false
+	}
+	return false
+}
+
+// stdFresh: standard-library functions whose (slice / map) result shares no memory with their arguments.
+func stdFresh(f *types.Func) bool {
+	if f.Pkg() == nil {
+		return false
+	}
+	switch f.Pkg().Path() + "." + f.Name() {
+	case "slices.Clone", "maps.Clone", "slices.Collect", "slices.Sorted", "slices.Concat", "slices.Repeat",
+		"strings.Split", "strings.SplitN", "strings.Fields", "strings.FieldsFunc", "bytes.Clone":
+		return true
 	}
 	return false
 }
@@ -821,7 +842,21 @@ func (x *swx) walkLHS(p *packages.Package, e ast.Expr) walk {
 			w.root = n
 			return w
 		case *ast.CallExpr:
+			// a conversion T(x) and append(x, …) alias x (append: unless it had to reallocate)
+			if tv, ok := info.Types[n.Fun]; ok && tv.IsType() && len(n.Args) == 1 {
+				e = n.Args[0]
+				continue
+			}
+			if id, ok := n.Fun.(*ast.Ident); ok && id.Name == "append" && len(n.Args) > 0 {
+				if _, isB := info.Uses[id].(*types.Builtin); isB {
+					e = n.Args[0]
+					continue
+				}
+			}
 			w.root = n
+			return w
+		case *ast.BasicLit, *ast.CompositeLit:
+			w.root = n // a literal: nothing shared behind it
 			return w
 		default:
 			w.unread = true
@@ -1390,10 +1425,18 @@ func (x *swx) scanFunc(fi *fnInfo) []swCand {
 			if !w.deref || !w.docField {
 				return
 			}
-			if f := calleeOf(p, r); f != nil && x.fresh[f] {
+			if x.freshExpr(p, r, fi.lf) {
 				return
 			}
 			origins = []swOrigin{{kind: "call"}}
+		default:
+			return // literal root
+		}
+		if forceSync == "appendSpare" && (underMutex(at.Pos()) || inOnce(at.Pos())) {
+			forceSync = "" // a synchronised append is an ordinary synchronised write
+		}
+		if strings.HasPrefix(forceSync, "append") {
+			row.target = x.text(at) // the whole call
 		}
 		if forceSync != "" {
 			row.sync = forceSync
@@ -1434,6 +1477,11 @@ func (x *swx) scanFunc(fi *fnInfo) []swCand {
 					switch id.Name {
 					case "delete", "copy", "clear":
 						record(n, elemOf(n.Args[0]), curStmt, "") // the container's elements are written
+					case "append":
+						// spare capacity: the appended elements land in the backing array of Args[0]
+						if len(n.Args) > 1 || n.Ellipsis.IsValid() {
+							x.recordAppend(p, n, n.Args[0], curStmt, record)
+						}
 					}
 				}
 				return true
@@ -1449,6 +1497,13 @@ func (x *swx) scanFunc(fi *fnInfo) []swCand {
 			switch f.Pkg().Path() {
 			case "sort", "slices":
 				nm := f.Name()
+				if f.Pkg().Path() == "slices" && len(n.Args) > 0 {
+					switch nm {
+					case "Insert", "Delete", "DeleteFunc", "Compact", "CompactFunc", "Replace", "Grow":
+						// edit the argument's backing array in place (Grow: only when it must not reallocate — same hazard)
+						x.recordAppend(p, n, n.Args[0], curStmt, record)
+					}
+				}
 				if (strings.HasPrefix(nm, "Sort") || nm == "Strings" || nm == "Ints" || nm == "Float64s" ||
 					nm == "Slice" || nm == "SliceStable" || nm == "Stable" || nm == "Reverse") && len(n.Args) > 0 {
 					arg := n.Args[0]
@@ -1492,6 +1547,25 @@ func (x *swx) scanFunc(fi *fnInfo) []swCand {
 	return cands
 }
 
+
+// recordAppend: `append(s, …)`. With cap(s) == len(s) guaranteed by the expression itself (full slice expression whose
+// max equals its high bound, or slices.Clip) nothing is written; otherwise the elements of s are (potentially) written.
+func (x *swx) recordAppend(p *packages.Package, at ast.Node, s ast.Expr, stmt ast.Stmt, record func(ast.Node, ast.Expr, ast.Stmt, string)) {
+	s = ast.Unparen(s)
+	class := "appendSpare"
+	switch e := s.(type) {
+	case *ast.SliceExpr:
+		if e.Slice3 && e.High != nil && e.Max != nil && x.text(e.High) == x.text(e.Max) {
+			class = "appendClipped"
+		}
+	case *ast.CallExpr:
+		if f := calleeOf(p, e); f != nil && f.Pkg() != nil && f.Pkg().Path() == "slices" && f.Name() == "Clip" && len(e.Args) == 1 {
+			class = "appendClipped"
+			s = e.Args[0]
+		}
+	}
+	record(at, &ast.IndexExpr{X: s, Index: &ast.BasicLit{Kind: token.INT, Value: "0"}, Lbrack: s.End(), Rbrack: s.End()}, stmt, class)
+}
 
 // ---------------------------------------------------------------- output
 
